@@ -46,6 +46,10 @@ def _verif_point(name, ymin):
     """
     if os.environ.get('AEGEAN_VERIF') != '1':
         return
+    idfile = os.environ.get('AEGEAN_VERIF_IDFILE')
+    if idfile and name == 'start':
+        with open(idfile, 'a') as f:
+            f.write("{0}\n".format(memory_id))
     sched = os.environ.get('AEGEAN_VERIF_SCHEDULE')
     if not sched or not os.path.exists(sched):
         return
